@@ -43,7 +43,7 @@ void FunctorManager::reset(const FunctorManager& fm)
 {
   if (&fm == this)
     return;
-  _backed.reset();
+  _journal.clear();
   _declarations.clear();
   // don't copy the cache of context
   for (const Entry& e : fm._declarations)
@@ -74,38 +74,40 @@ bool FunctorManager::nameExists(const std::string& name) const
 
 FunctorManager::Entry& FunctorManager::createOrReplace(const std::string& name, const std::vector<Symbol>& params)
 {
-  _backed.reset();
+  unsigned id = 0;
   for (Entry& e : _declarations)
   {
     if (e.functor->name == name && e.functor->params.size() == params.size())
     {
       /* back up current declaration */
-      _backed.swap(e.functor);
+      _journal.push_back(Change{id, FunctorPtr()});
+      _journal.back().backed.swap(e.functor);
       return e;
     }
+    ++id;
   }
+  _journal.push_back(Change{id, FunctorPtr()});
   _declarations.emplace_back(Entry(FunctorPtr(new Functor())));
   return _declarations.back();
 }
 
 void FunctorManager::rollback()
 {
-  if (_declarations.empty())
-    return;
-  if (_backed)
+  while (!_journal.empty())
   {
-    /* revert last change, restoring the backed up */
-    if (_declarations.back().functor->name == _backed->name &&
-            _declarations.back().functor->params.size() == _backed->params.size())
+    Change& c = _journal.back();
+    if (c.backed)
     {
-      _declarations.back().functor.swap(_backed);
-      return;
+      /* restore the replaced declaration */
+      if (c.id < _declarations.size())
+        _declarations[c.id].functor.swap(c.backed);
     }
-  }
-  else
-  {
-    /* remove last created */
-    _declarations.pop_back();
+    else if (c.id + 1 == _declarations.size())
+    {
+      /* remove the created declaration */
+      _declarations.pop_back();
+    }
+    _journal.pop_back();
   }
 }
 
